@@ -220,6 +220,7 @@ def c01_direct(scripts, cache_vals, cfg):
     tsh._Capture.top = None
     tsh._Capture.depth = 0
     tr = AuthTrace()
+    del tsh.WatchDeque.drops[:]
     tr.install()
     v = None
     try:
@@ -238,6 +239,8 @@ def c01_direct(scripts, cache_vals, cfg):
     out = []
     if type(v) is not bool:
         out.append('run_auth_scripts returned a non-bool')
+    if tsh.WatchDeque.drops:
+        out.append('the verdict %s was computed on a stack that silently lost items: %s' % (v, tsh.WatchDeque.drops[0]))
     stack = tsh._Capture.top[1] if tsh._Capture.top else None
     ran_all = len(tr.scripts) == len(scripts) and not any(s['raised'] for s in tr.scripts)
     for k, s in enumerate(tr.scripts):
@@ -806,4 +809,8 @@ def run_c20(seed, tier, nproc):
     tot['disagreements'] += fk['disagreements']; tot['violations'] += fk['violations']
     tot['samples'] += fk['samples'][:1]
     tot['fork_stream'] = dict(stats=fk['stats'], outcomes=fk['outcomes'], n=fk['n'])
+    cv, cn = forkstream.compile_level(seed + 21, tier == 'thorough')
+    tot['violations'] += cv
+    tot['n'] += cn
+    tot['fork_stream']['compile_level_sources'] = cn
     return tot
